@@ -1,0 +1,185 @@
+//! Verification-only containers, compiled only with `--cfg avra_verif`.
+//!
+//! Bounded model checking of the crate (Kani/CBMC, driven from /verif) cannot get through
+//! the SipHash + SIMD probing of `std::collections::HashMap` or the node splitting of
+//! `BTreeSet` on symbolic keys. Under the `avra_verif` cfg the crate's `use` lines pick these
+//! list-based stand-ins instead; they offer the subset of the std API the crate uses with the
+//! same observable semantics (unique keys, replace-on-insert, ordered set). Iteration order
+//! of the map is insertion order, not hash order.
+//!
+//! With the cfg off (every normal build and the test suite) this module does not exist.
+
+use std::borrow::Borrow;
+
+#[derive(Clone, Debug)]
+pub struct HashMap<K, V> {
+    items: Vec<(K, V)>,
+}
+
+impl<K: Eq, V> HashMap<K, V> {
+    pub fn new() -> Self {
+        Self { items: Vec::new() }
+    }
+
+    pub fn with_capacity(_capacity: usize) -> Self {
+        Self { items: Vec::new() }
+    }
+
+    pub fn len(&self) -> usize {
+        self.items.len()
+    }
+
+    pub fn is_empty(&self) -> bool {
+        self.items.is_empty()
+    }
+
+    pub fn get<Q: ?Sized>(&self, key: &Q) -> Option<&V>
+    where
+        K: Borrow<Q>,
+        Q: Eq,
+    {
+        for (k, v) in self.items.iter() {
+            if k.borrow() == key {
+                return Some(v);
+            }
+        }
+        None
+    }
+
+    pub fn contains_key<Q: ?Sized>(&self, key: &Q) -> bool
+    where
+        K: Borrow<Q>,
+        Q: Eq,
+    {
+        self.get(key).is_some()
+    }
+
+    pub fn insert(&mut self, key: K, value: V) -> Option<V> {
+        for (k, v) in self.items.iter_mut() {
+            if *k == key {
+                return Some(std::mem::replace(v, value));
+            }
+        }
+        self.items.push((key, value));
+        None
+    }
+
+    pub fn remove<Q: ?Sized>(&mut self, key: &Q) -> Option<V>
+    where
+        K: Borrow<Q>,
+        Q: Eq,
+    {
+        let mut found = None;
+        for (i, (k, _)) in self.items.iter().enumerate() {
+            if k.borrow() == key {
+                found = Some(i);
+                break;
+            }
+        }
+        found.map(|i| self.items.remove(i).1)
+    }
+
+    pub fn iter(&self) -> impl Iterator<Item = (&K, &V)> {
+        self.items.iter().map(|(k, v)| (k, v))
+    }
+}
+
+impl<K: Eq, V: PartialEq> PartialEq for HashMap<K, V> {
+    fn eq(&self, other: &Self) -> bool {
+        self.items.len() == other.items.len()
+            && self.items.iter().all(|(k, v)| other.get(k) == Some(v))
+    }
+}
+
+impl<K: Eq, V: Eq> Eq for HashMap<K, V> {}
+
+/// Ordered set kept as a sorted vector without duplicates (canonical, so derived equality
+/// is set equality).
+#[derive(Clone, Debug, PartialEq, Eq)]
+pub struct BTreeSet<T> {
+    items: Vec<T>,
+}
+
+impl<T: Ord> BTreeSet<T> {
+    pub fn new() -> Self {
+        Self { items: Vec::new() }
+    }
+
+    pub fn len(&self) -> usize {
+        self.items.len()
+    }
+
+    pub fn is_empty(&self) -> bool {
+        self.items.is_empty()
+    }
+
+    pub fn get<Q: ?Sized>(&self, value: &Q) -> Option<&T>
+    where
+        T: Borrow<Q>,
+        Q: Ord,
+    {
+        for item in self.items.iter() {
+            if item.borrow() == value {
+                return Some(item);
+            }
+        }
+        None
+    }
+
+    pub fn contains<Q: ?Sized>(&self, value: &Q) -> bool
+    where
+        T: Borrow<Q>,
+        Q: Ord,
+    {
+        self.get(value).is_some()
+    }
+
+    pub fn insert(&mut self, value: T) -> bool {
+        let mut at = self.items.len();
+        for (i, item) in self.items.iter().enumerate() {
+            if *item == value {
+                return false;
+            }
+            if *item > value {
+                at = i;
+                break;
+            }
+        }
+        self.items.insert(at, value);
+        true
+    }
+
+    pub fn iter(&self) -> std::slice::Iter<'_, T> {
+        self.items.iter()
+    }
+}
+
+#[macro_export]
+macro_rules! vmap_hashmap {
+    ($($key:expr => $value:expr,)+) => { $crate::vmap_hashmap!($($key => $value),+) };
+    ($($key:expr => $value:expr),*) => {
+        {
+            #[allow(unused_mut)]
+            let mut _map = $crate::vmap::HashMap::new();
+            $(
+                let _ = _map.insert($key, $value);
+            )*
+            _map
+        }
+    };
+}
+
+#[macro_export]
+macro_rules! vmap_btreeset {
+    ($($key:expr,)+) => { $crate::vmap_btreeset!($($key),+) };
+    ($($key:expr),*) => {
+        {
+            #[allow(unused_mut)]
+            let mut _set = $crate::vmap::BTreeSet::new();
+            $(
+                _set.insert($key);
+            )*
+            _set
+        }
+    };
+}
